@@ -952,7 +952,7 @@ class ZeroBaseForm(BaseForm):
 
     def __repr__(self):
         """Representation."""
-        return "ZeroBaseForm({})".format(", ".join(repr(arg) for arg in self._arguments))
+        return f"ZeroBaseForm({tuple(self._arguments)!r})"
 
     def __hash__(self):
         """Hash."""
